@@ -25,6 +25,13 @@ def defrun(entry, quick=None, thorough=None, reach=(), **kw):
     d.update(kw)
     return d
 
+S = "github.com/Flowpack/prunner/store"
+
+def step(entry, quick=None, thorough=None, reach=(), **kw):
+    d = {"pkg": P, "harness": ["harness/prunner"], "entry": entry, "quick": quick or {}, "thorough": thorough or {}, "reach": list(reach)}
+    d.update(kw)
+    return d
+
 CHECKS = {
     "C01": {"prefixes": ["C01."], "assumptions": L3_ASSUME, "validate_samples": {"quick": 1, "thorough": 3},
             "runs": [bmc({"K": 4, "N": 4}, {"K": 5, "N": 4}, reach=["spawn.concurrent>1", "end"])]},
@@ -55,4 +62,25 @@ CHECKS = {
                      defrun("VerifC17EqualsPipeline", {"slice": 1, "map": 1}, {"slice": 1, "map": 2}, reach=["same", "different"]),
                      defrun("VerifC17EqualsSet", reach=["same-2"]),
                      defrun("VerifC17Load", reach=["duplicate", "loaded", "invalid-file"], replay=None)]},
+    "C10": {"prefixes": ["C10."],
+            "assumptions": ["store.DataStore is a recording stub (the JSON codec is not executed, except the float writer kernel)",
+                            "error texts are non-empty strings; instants in (0, 2^61)",
+                            "snapshots: <=NJ jobs x <=2 tasks with arbitrary flags/status strings; round trip: one finished job x <=2 tasks",
+                            "float kernel: which writer store.json selects is read statically from the SSA of the package initialisers; jsoniter's pow10 table is provided by the engine"],
+            "runs": [step("VerifC10Load", {"NJ": 2}, {"NJ": 3}, reach=["finished-job", "unfinished-job", "full"], flags={"workers": 8}),
+                     step("VerifC10RoundTrip", reach=["two-tasks"], flags={"workers": 8}, replay="harness"),
+                     {"pkg": S, "harness": ["harness/store"], "entry": "VerifC10Float", "quick": {}, "thorough": {}, "reach": [], "replay": "float",
+                      "flags": {"stop-at-first": "true", "wall": "240s", "solver-timeout-ms": 60000}, "allow_incomplete": True}]},
+    "C12": {"prefixes": ["C12."],
+            "assumptions": ["store and output store are recording stubs (os.RemoveAll / file writes are not executed)",
+                            "instants in (0, 2^61) ns; retention_count / retention_period arbitrary 64-bit values (also negative)",
+                            "population: <=NP jobs in pipeline p, <=NQ in q, <=1 in an undefined pipeline; every flag combination, Start nil or set",
+                            "sort.Sort is executed from its real SSA (insertion sort for these sizes)"],
+            "runs": [step("VerifC12Retention", {"NP": 2, "NQ": 0}, {"NP": 3, "NQ": 0}, reach=["removed", "full-population"], flags={"solver": "cvc5-int"}, replay="harness"),
+                     step("VerifC12Retention", {"NP": 1, "NQ": 1}, {"NP": 2, "NQ": 1}, reach=["removed", "full-population"], flags={"solver": "cvc5-int"}, replay="harness")]},
+    "C13": {"prefixes": ["C13."],
+            "assumptions": ["lock discipline, not a whole-program race analysis: every access to memory reachable from the PipelineRunner must happen with r.mx held in the right mode",
+                            "declared happens-before exceptions: the scheduler goroutine reads its own job's sched/ID; fields set once in NewPipelineRunner (store, outputStore, persistRequests, createTaskRunner) are immutable (writes are reported)",
+                            "state: built through the public API (finished, running and waiting jobs, retention configured); one operation per path"],
+            "runs": [step("VerifC13Locks", reach=["op-done"])]},
 }
